@@ -253,6 +253,12 @@ def ctl_scenarios() -> dict[str, dict[str, Any]]:
                                         "hold": "RunTask:s|CancelStage:s", "workers": 2, "kind": "cancel", "cancel_when": "RunTask:s"},
         "cancelstage-vs-runtask-transient": {"spec": {"name": "tr3r", "stages": [stage("a", [], [ok()]), stage("s", ["a"], [{"b": "transient", "k": 2}]), stage("z", ["s"], [ok()])]},
                                              "hold": "RunTask:s|CancelStage:s", "workers": 2, "kind": "cancel", "cancel_when": "RunTask:s"},
+        # a sibling failed while the stage's task was executing: CompleteWorkflow (TERMINAL) fans a CancelStage out to the running
+        # stage, and the task's result (suspend / poll again / transient failure / jump / success) arrives after it
+        **{f"failcancel-vs-runtask-{nm}": {"spec": {"name": f"failgate-{nm}", "stages": [stage("a", [], [ok()]), stage("b", ["a"], [{"b": "fail"}]), stage("g", ["a"], [tk])]},
+                                           "hold": "RunTask:g|CompleteWorkflow:", "workers": 2, "kind": "none", "programs": [1, 2]}
+           for nm, tk in (("suspend", {"b": "suspend", "emit": []}), ("poll", {"b": "poll", "k": 2}), ("transient", {"b": "transient", "k": 2}),
+                          ("jump", {"b": "jump", "to": "a", "j": 1}), ("ok", ok()))},
         "cancel-vs-first-completestage": {"spec": two, "hold": "CompleteStage:a|CancelWorkflow:", "workers": 2, "kind": "cancel", "cancel_when": "CompleteStage:a"},
     }
 
@@ -281,7 +287,10 @@ def shard_ctl(prop: str, tier: str, seed: int, which: str) -> dict[str, Any]:
         final = w.scalar("SELECT status FROM pipeline_executions WHERE id = 'W1'")
         c.count(f"ctl:{which}:final:{final}")
 
-    cnt = explore(mk, lambda w: [handle_one() for _ in range(sc["workers"])], j, max_preemptions=P, max_runs=6000)
+    from vlib.engine_i import handle_upto
+
+    progs = sc.get("programs") or [1] * sc["workers"]
+    cnt = explore(mk, lambda w: [handle_one() if k == 1 else handle_upto(k) for k in progs], j, max_preemptions=P, max_runs=6000)
     c.extra[f"exhaustive:ctl:{which}"] = f"all schedules with <= {P} pre-emptions of 2 workers: {cnt}"
     return c.export()
 
